@@ -147,14 +147,11 @@ impl Add for Duration {
         // Check that the addition fits in an i16
         match self.centuries.checked_add(rhs.centuries) {
             None => {
-                // Overflowed, so we've hit the bound.
-                if self.centuries < 0 {
-                    // We've hit the negative bound, so return MIN.
-                    return Self::MIN;
-                } else {
-                    // We've hit the positive bound, so return MAX.
-                    return Self::MAX;
-                }
+                // The centuries alone do not fit, but the nanoseconds may bring the sum back within the bounds.
+                // Otherwise, the conversion saturates on the side of the exact sum.
+                return Self::from_total_nanoseconds(
+                    self.exact_total_nanoseconds() + rhs.exact_total_nanoseconds(),
+                );
             }
             Some(centuries) => {
                 self.centuries = centuries;
@@ -289,8 +286,10 @@ impl Sub for Duration {
         rhs.normalize();
         match self.centuries.checked_sub(rhs.centuries) {
             None => {
-                // Underflowed, so we've hit the min
-                return Self::MIN;
+                // The centuries alone do not fit: saturate on the side of the exact difference.
+                return Self::from_total_nanoseconds(
+                    self.exact_total_nanoseconds() - rhs.exact_total_nanoseconds(),
+                );
             }
             Some(centuries) => {
                 self.centuries = centuries;
